@@ -53,7 +53,10 @@ func (f *h1Free) lifeOf(o, x string) *h1Life {
 func h1GenFree(prop string) func(rng *simkit.Rand, tier string, idx int) *simkit.Case {
 	return func(rng *simkit.Rand, tier string, idx int) *simkit.Case {
 		c := &simkit.Case{Family: "h1.free", Cfg: map[string]int64{}}
-		c.Cfg["nodes"] = int64(rng.Range(3, 5))
+		c.Cfg["nodes"] = int64(rng.Range(3, 4))
+		if tier == "thorough" {
+			c.Cfg["nodes"] = int64(rng.Range(3, 5))
+		}
 		c.Cfg["keys"] = int64(rng.Range(1, 6))
 		c.Cfg["interval_ms"] = int64([]int{50, 100, 200}[rng.Intn(3)])
 		if tier == "thorough" {
@@ -88,7 +91,7 @@ func h1GenFree(prop string) func(rng *simkit.Rand, tier string, idx int) *simkit
 			k := kinds[rng.Weighted(w)]
 			if k == "longwait" {
 				// bound the simulated time of a run (events cost wall time)
-				if longs++; longs > 3 {
+				if longs++; longs > 2+map[string]int{"thorough": 2}[tier] {
 					k = "wait"
 				}
 			}
